@@ -9,7 +9,8 @@ Open Scope Z_scope.
 (* seams of the scripted connection: the thread of connection c parks ... *)
 Inductive hold :=
 | HoldGotByte    (* after the Read that delivered the next request returned, before Store(0): a goroutine that is not scheduled yet *)
-| HoldLoopTop.   (* inside SetReadDeadline at the top of the loop *)
+| HoldLoopTop    (* inside SetReadDeadline at the top of the loop *)
+| HoldAccepted.  (* the acceptor, inside the ConnState(StateNew) hook: after Accept returned, before s.open.Add(1) *)
 
 Record cobs := mkCO {
   co_started : Z;       (* handler invocations on this connection *)
@@ -42,12 +43,12 @@ Inductive c15case := CRun (cf : cfg) (blocks : list block) (conns : list cres).
 
 (* ---- the scheduler ------------------------------------------------------------------------------------------------------ *)
 Definition held (hs : list (nat * hold)) (c : nat) (h : hold) : bool :=
-  existsb (fun e => Nat.eqb (fst e) c && match snd e, h with HoldGotByte, HoldGotByte | HoldLoopTop, HoldLoopTop => true | _, _ => false end) hs.
+  existsb (fun e => Nat.eqb (fst e) c && match snd e, h with HoldGotByte, HoldGotByte | HoldLoopTop, HoldLoopTop | HoldAccepted, HoldAccepted => true | _, _ => false end) hs.
 
 (* the next step of connection thread c that needs no outside action *)
 Definition next_conn_label (hs : list (nat * hold)) (c : nat) (r : conn) : list label :=
   match pc r with
-  | CAccepted => [LOpenInc c]
+  | CAccepted => if held hs c HoldAccepted then [] else [LOpenInc c]
   | CQueued => [LRegIdle c]
   | CLoopTop => if held hs c HoldLoopTop then [] else [LSetDeadline c]
   | CPeek => [LPeekOk c; LPeekFail c]
